@@ -43,10 +43,71 @@ def signature(case, ck, log, fault):
 
 
 def plan(tier, seed):
-    return F.std_plan(tier, seed, 6000, 80000)
+    return F.std_plan(tier, seed, 6000, 80000) + [{"chained": True, "seed": seed, "count": 60 if tier == "quick" else 600}]
+
+
+CHAIN_SRC = '''
+class P(StateMachine):
+    a = State(initial=True)
+    b = State()
+    c = State()
+    start = a.to(b, {group}={refs})
+    finish = a.to(c) | b.to(c)
+    def on_finish(self):
+        return {fret!r}
+    def {group}_start(self):
+        return "S"
+    def other(self):
+        return {oret!r}
+'''
+
+
+def run_chained(desc):
+    """An event NAME used as a before/on action (chained events): with rtc=False the chained event runs at
+    once and ITS result is that action's contribution to the outer result; under rtc it is queued and
+    contributes None. Compared for every placement next to ordinary callbacks."""
+    import random
+    import warnings
+
+    from statemachine import State, StateMachine
+
+    rng = random.Random(desc["seed"] * 7 + 5)
+    counters = {"chained_event_results": 0}
+    violations, sigs = [], set()
+    for _ in range(desc["count"]):
+        group = rng.choice(["before", "on"])
+        rtc = rng.random() < 0.4
+        fret = rng.choice(["F", 0, "", None, ["x"], False])
+        oret = rng.choice(["O", 0, None])
+        with_other = rng.random() < 0.5
+        refs = ["'finish'"] + (["'other'"] if with_other else [])
+        rng.shuffle(refs)
+        src = CHAIN_SRC.format(group=group, refs="[" + ", ".join(refs) + "]", fret=fret, oret=oret)
+        ns = {"State": State, "StateMachine": StateMachine, "__name__": "vmon_c14c"}
+        with warnings.catch_warnings():
+            warnings.simplefilter("ignore")
+            exec(compile(src, "<c14-chain>", "exec"), ns)
+            sm = ns["P"](rtc=rtc)
+            try:
+                res = sm.start()
+            except Exception as err:  # noqa: BLE001
+                res = f"{type(err).__name__}: {err}"
+        contributions = [(None if rtc else fret)] + ([oret] if with_other else []) + ["S"]
+        got = res if isinstance(res, list) else [res]
+        counters["chained_event_results"] += 1
+        sigs.add(F.h((group, rtc, repr(fret), with_other)))
+        key = lambda x: repr(x)  # noqa: E731
+        if sorted(got, key=key) != sorted(contributions, key=key):
+            violations.append({"mechanism": "chained-event-result", "rule": "C14.result",
+                               "detail": f"{group}={refs} rtc={rtc}: start() returned {res!r}; expected the values {contributions} (any order inside the group)",
+                               "witness": {"source": src, "rtc": rtc}})
+    return {"evaluations": counters["chained_event_results"], "signatures": sorted(sigs), "samples": [], "counters": counters,
+            "violations": violations[:2]}
 
 
 def run_shard(desc):
+    if desc.get("chained"):
+        return run_chained(desc)
     return F.explore(desc, make_case, owns, signature)
 
 
